@@ -200,7 +200,9 @@ func ZZH12TruncateIncomplete() {
 			header = true
 		}
 	}
-	sym.Assume(cannotEnd(last) || header)
+	// a keyword directly after a dot is a property name (`a.function`): it can end a program
+	name := cut >= 2 && s.Toks[cut-2].Type == token.DOT
+	sym.Assume((cannotEnd(last) && !name) || header)
 	s.Toks = s.Toks[:cut]
 	s.EOF.Start = token.Position{Line: 0, Column: 2 * cut}
 	s.EOF.End = s.EOF.Start
